@@ -35,6 +35,12 @@ def run(p, led, tier):
     led.rule("C13-R5", "a failing digester is contained per item and recorded; disposed + errors = items taken; counters only on success", 3)
     led.rule("C13-R6", "a sensitive item is labelled toxic, reaches the toxic callback exactly once and is never recycled", 3)
 
+    from ..locks import late_lock_constructions
+    late = late_lock_constructions(lys)
+    if late:
+        m_, n_ = late[0]
+        led.fail("C13-R2", f"Lysosome.{m_.name} ▸ `{short(n_, 60)}`", where(m_, n_), "the queue lock is built outside the constructor: threads racing on its creation do not exclude each other")
+        return
     if len(la.locks) != 1:
         raise AnchorError(f"Lysosome is expected to own exactly one lock attribute; found {sorted(la.locks)}")
     lock = next(iter(la.locks))
